@@ -210,6 +210,93 @@ def synthetic_modules() -> list[tuple[Any, str]]:
     return out
 
 
+DIRECTED = {
+    "scf.for with a discardable attribute": '''"builtin.module"() ({
+  %lb, %ub, %st = "test.op"() : () -> (index, index, index)
+  "scf.for"(%lb, %ub, %st) ({
+  ^bb0(%i : index):
+    "scf.yield"() : () -> ()
+  }) {my.attr = 1 : i32} : (index, index, index) -> ()
+}) : () -> ()''',
+    "scf.for with iter_args and an attribute": '''"builtin.module"() ({
+  %lb, %ub, %st, %x = "test.op"() : () -> (index, index, index, i32)
+  %r = "scf.for"(%lb, %ub, %st, %x) ({
+  ^bb0(%i : index, %a : i32):
+    "scf.yield"(%a) : (i32) -> ()
+  }) {my.attr} : (index, index, index, i32) -> i32
+}) : () -> ()''',
+    "memref.alloc with attributes named like parts of operandSegmentSizes": '''"builtin.module"() ({
+  %m = "memref.alloc"() <{operandSegmentSizes = array<i32: 0, 0>}> {Sizes = 3 : i32, operand = unit} : () -> memref<2xf32>
+  %n = "memref.alloca"() <{operandSegmentSizes = array<i32: 0, 0>}> {Segment = unit} : () -> memref<2xf32>
+}) : () -> ()''',
+    "scf.execute_region with results and an attribute": '''"builtin.module"() ({
+  %r = "scf.execute_region"() ({
+    %v = "test.op"() : () -> i32
+    "scf.yield"(%v) : (i32) -> ()
+  }) {x = unit} : () -> i32
+}) : () -> ()''',
+    "scf.execute_region without results": '''"builtin.module"() ({
+  "scf.execute_region"() ({
+    "scf.yield"() : () -> ()
+  }) : () -> ()
+}) : () -> ()''',
+    "scf.if with an attribute": '''"builtin.module"() ({
+  %c = "test.op"() : () -> i1
+  "scf.if"(%c) ({
+    "scf.yield"() : () -> ()
+  }, {
+    "scf.yield"() : () -> ()
+  }) {x = unit} : (i1) -> ()
+}) : () -> ()''',
+    "func.func with attributes on some results only": '''"builtin.module"() ({
+  "func.func"() <{function_type = () -> (f32, i64), sym_name = "f", sym_visibility = "private", res_attrs = [{a.b = 0 : i32}, {}]}> ({}) : () -> ()
+}) : () -> ()''',
+    "func.func with attributes on some arguments only": '''"builtin.module"() ({
+  "func.func"() <{function_type = (f32, i64) -> (), sym_name = "g", arg_attrs = [{}, {a.b = 0 : i32}]}> ({
+  ^bb0(%a : f32, %b : i64):
+    "func.return"() : () -> ()
+  }) : () -> ()
+}) : () -> ()''',
+    "memref.load and store with discardable attributes": '''"builtin.module"() ({
+  %m, %i, %v = "test.op"() : () -> (memref<4xf32>, index, f32)
+  %x = "memref.load"(%m, %i) {my.checked = false} : (memref<4xf32>, index) -> f32
+  "memref.store"(%v, %m, %i) {my.checked = false, other = 0 : i64} : (f32, memref<4xf32>, index) -> ()
+}) : () -> ()''',
+    "arith ops with attributes and fastmath": '''"builtin.module"() ({
+  %a, %b = "test.op"() : () -> (f32, f32)
+  %c = "arith.addf"(%a, %b) <{fastmath = #arith.fastmath<fast>}> {k = 1 : i8} : (f32, f32) -> f32
+  %d = "arith.addf"(%a, %b) <{fastmath = #arith.fastmath<none>}> {k = false} : (f32, f32) -> f32
+  %e = "arith.constant"() <{value = 0 : i1}> {k} : () -> i1
+}) : () -> ()''',
+    "cf branches with forward references used twice": '''"builtin.module"() ({
+  "func.func"() <{function_type = () -> (), sym_name = "h"}> ({
+    "cf.br"()[^use] : () -> ()
+  ^use:
+    %s = "arith.addi"(%c, %c) : (i32, i32) -> i32
+    %t = "arith.muli"(%c, %s) : (i32, i32) -> i32
+    "func.return"() : () -> ()
+  ^def:
+    %c = "arith.constant"() <{value = 1 : i32}> : () -> i32
+    "cf.br"()[^use] : () -> ()
+  }) : () -> ()
+}) : () -> ()''',
+}
+
+
+def directed_modules() -> list[tuple[Any, str]]:
+    """Hand-written formats in shapes the corpus does not contain (discardable attributes on structured ops, partial
+    argument / result attributes, attribute names near reserved ones, forward references used twice)."""
+    from xdsl.parser import Parser
+
+    out = []
+    for label, text in DIRECTED.items():
+        try:
+            out.append((Parser(fresh_ctx(), text).parse_module(), label))
+        except Exception:  # noqa: BLE001  (an input this tree does not accept is not a case)
+            continue
+    return out
+
+
 def print_op(op, generic: bool) -> str:
     from xdsl.printer import Printer
 
@@ -290,6 +377,8 @@ def run(ctx: Ctx):
     syn = synthetic_modules()
     for m, label in syn:
         roundtrip(ctx, m, {"source": "synthetic declarative formats", "file": label}, cases, metas)
+    for m, label in directed_modules():
+        roundtrip(ctx, m, {"source": "directed hand-written formats", "file": label}, cases, metas)
     n_syn = len(cases)
     from .c01_c2s import corpus_modules
 
